@@ -657,6 +657,18 @@ func (e *specEnv) call(s *SExpr) Val {
 			if tp != nil {
 				fobj, _ = tp.Scope().Lookup(key[k+1:]).(*types.Func)
 			}
+			if fobj == nil {
+				// pkg.Type.Method
+				k2 := strings.LastIndex(key[:k], ".")
+				if k2 > 0 {
+					if tp2 := x.prog.typesPkg(key[:k2]); tp2 != nil {
+						if tn, ok := tp2.Scope().Lookup(key[k2+1 : k]).(*types.TypeName); ok {
+							o, _, _ := types.LookupFieldOrMethod(types.NewPointer(tn.Type()), true, tp2, key[k+1:])
+							fobj, _ = o.(*types.Func)
+						}
+					}
+				}
+			}
 			idx, _ := strconv.Atoi(args[1].Name)
 			if fobj == nil || idx >= fobj.Type().(*types.Signature).Results().Len() {
 				e.fail("libfn: unknown library function %s", key)
